@@ -75,7 +75,23 @@ fn round_trip<T: Term + Clone>(value: T, via: &str) -> Result<ST, String> {
     use sophia_api::serializer::{QuadSerializer, Stringifier, TripleSerializer};
     use sophia_api::source::{QuadSource, TripleSource};
     // (a triple has one term type: the native value is copied into a SimpleTerm through the Term API, i.e. lexical_form() and datatype())
-    let one = || std::iter::once(Ok::<_, std::convert::Infallible>([iri("urn:s"), iri("urn:p"), value.clone().into_term::<ST>()]));
+    // "+siblings": the same subject and predicate also have values with the SAME lexical form and another datatype / a language tag
+    let (via, siblings) = match via.strip_suffix("+siblings") { Some(v) => (v, true), None => (via, false) };
+    let me: ST = value.clone().into_term::<ST>();
+    let lex = sophia_api::term::Term::lexical_form(&me).map(|l| l.to_string()).unwrap_or_default();
+    let my_dt = sophia_api::term::Term::datatype(&me).map(|d| d.to_string()).unwrap_or_default();
+    let mut objects: Vec<ST> = vec![me.clone()];
+    if siblings {
+        for dt in [format!("{XSD}string"), format!("{XSD}integer"), format!("{XSD}double"), format!("{XSD}boolean"), "urn:dt".to_string()] {
+            if dt != my_dt {
+                objects.push(lit_dt(&lex, &dt));
+            }
+        }
+        objects.push(lit_lang(&lex, "en"));
+        objects.rotate_left(lex.len() % 3);
+    }
+    let objects2 = objects.clone();
+    let one = move || objects2.clone().into_iter().map(|o| Ok::<_, std::convert::Infallible>([iri("urn:s"), iri("urn:p"), o]));
     let mut got: Vec<ST> = vec![];
     match via {
         "nt" => {
@@ -111,10 +127,15 @@ fn round_trip<T: Term + Clone>(value: T, via: &str) -> Result<ST, String> {
             sophia_jsonld::JsonLdParser::new().parse_str(&txt).for_each_quad(|x| got.push(x.o().into_term())).map_err(|e| format!("{e} in {txt:?}"))?;
         }
     }
-    if got.len() == 1 { Ok(got.remove(0)) } else { Err(format!("{} statements came back", got.len())) }
+    if got.len() != objects.len() {
+        return Err(format!("{} statements came back, {} were written", got.len(), objects.len()));
+    }
+    // the value that came back: the one with the datatype of the value that was written (and no language tag)
+    let mut mine: Vec<ST> = got.into_iter().filter(|t| sophia_api::term::Term::language_tag(t).is_none() && sophia_api::term::Term::datatype(t).map(|d| d.to_string()).unwrap_or_default() == my_dt).collect();
+    if mine.len() == 1 { Ok(mine.remove(0)) } else { Err(format!("{} statements with the datatype of the value came back", mine.len())) }
 }
 
-const VIAS: [&str; 8] = ["direct", "simple", "nt", "turtle", "turtle-pretty", "trig-pretty", "xml", "jsonld"];
+const VIAS: [&str; 12] = ["direct", "simple", "nt", "turtle", "turtle-pretty", "trig-pretty", "xml", "jsonld", "nt+siblings", "turtle-pretty+siblings", "xml+siblings", "jsonld+siblings"];
 
 fn native_event<T: Term + Clone>(ty: &str, value: T, val: Value, legal_xml: bool) -> Value {
     let term = guarded(|| term_json(value.borrow_term()));
@@ -124,7 +145,7 @@ fn native_event<T: Term + Clone>(ty: &str, value: T, val: Value, legal_xml: bool
     };
     let mut vias = vec![];
     for via in VIAS {
-        if via == "xml" && !legal_xml {
+        if via.starts_with("xml") && !legal_xml {
             continue;
         }
         let o = match via {
